@@ -269,13 +269,13 @@ class Run:
                 why = f"{why}; with history: {why2}"
             if not ok:
                 lines.append(f"HARNESS-ERROR nondeterministic: {why} ({path})")
-                status = 2
+                if status == 0:
+                    status = 2
             else:
                 lines.append(f"VIOLATION property={self.prop} replay={path}")
                 lines.append(f"  class={v['kind']} {canon(v['attrs'])} cases={len(vs)} :: {v['msg'][:300]}")
-                if status == 0:
-                    status = 1
-        if vacuity:
+                status = 1  # a confirmed violation outranks classes that could not be reproduced
+        if vacuity and status == 0 and not listed:
             lines.append(f"HARNESS-ERROR vacuous: required outcome classes never reached: {vacuity}")
             status = 2
         cov = {
